@@ -112,7 +112,7 @@ def _boolean_leaves(e: ast.AST):
         yield e
 
 
-def value_entry_methods(db: ProgramDB, filter_classes: List[ClassInfo]) -> Dict[str, Tuple[bool, str]]:
+def value_entry_methods(db: ProgramDB, filter_classes: List[ClassInfo], conditional: Dict[str, ast.AST] = None) -> Dict[str, Tuple[bool, str]]:
     """Methods of SymbolicExpression of the shape
            def M(self, sources=None): return self._evaluate__(sources, yield_when_false=self.<ATTR>)
        -> {M: (ok, explanation)}; ok iff ATTR is True for every class that owns a value-truthiness filter and False for
@@ -142,6 +142,8 @@ def value_entry_methods(db: ProgramDB, filter_classes: List[ClassInfo]) -> Dict[
         # per-class constant
         bad = []
         fset = {c.qualname for fc in filter_classes for c in fc.all_subclasses()}
+        cond_classes = {c.qualname: cnd for k, cnd in (conditional or {}).items() for c in [db.classes[k]] + db.classes[k].all_subclasses()
+                        if not any(attr in kk.class_attrs and kk is not se for kk in c.mro[:c.mro.index(db.classes[k])] )}
         for c in se.all_subclasses():
             val = None
             for k in c.mro:
@@ -155,6 +157,30 @@ def value_entry_methods(db: ProgramDB, filter_classes: List[ClassInfo]) -> Dict[
                     val = v.value if isinstance(v, ast.Constant) else "?"
                     break
             want = c.qualname in fset
+            if c.qualname in cond_classes:
+                # the truth of this class's rows is the truthiness of a value under a condition (a variable that stands for a predicate): the
+                # attribute has to say so exactly then - a property that returns that condition
+                cond = cond_classes[c.qualname]
+                prop = None
+                for k in c.mro:
+                    if attr in k.methods and k.methods[attr].is_property:
+                        rets = [r.value for r in own_nodes(k.methods[attr].node) if isinstance(r, ast.Return) and r.value is not None]
+                        prop = rets[0] if len(rets) == 1 else None
+                        break
+                    if attr in k.class_attrs or [f for f in k.own_fields if f.name == attr]:
+                        break
+
+                def core(e):
+                    if isinstance(e, ast.Call) and dotted(e.func) == "bool" and e.args:
+                        e = e.args[0]
+                    if isinstance(e, ast.Compare) and len(e.ops) == 1 and isinstance(e.ops[0], ast.IsNot) and isinstance(e.comparators[0], ast.Constant) \
+                            and e.comparators[0].value is None:
+                        e = e.left
+                    return unparse(e)
+                if prop is None or not (core(prop) == core(cond) or (isinstance(prop, ast.Constant) and prop.value is True)):
+                    bad.append(f"{c.name}.{attr} is {unparse(prop) if prop is not None else val} (required: true whenever `{unparse(cond)}`, i.e. whenever the truth of "
+                               f"the row is the truthiness of the output - double(x.n) == 0 compares nothing otherwise)")
+                continue
             if val is not want:
                 bad.append(f"{c.name}.{attr}={val} (required {want})")
         res[name] = (not bad, f"`{name}` evaluates with yield_when_false=self.{attr}; " +
@@ -175,12 +201,20 @@ def rule_value_truth(db: ProgramDB) -> List[Instance]:
                             f"{what} decides whether the row survives unless false rows were requested", line=x.lineno))
         else:
             out.append(inst("VALUE-TRUTH", INFO, m, f"filter-site[{m.short}]",
-                            f"{what} decides truth: predicate / inferred-instance outputs are conditions by nature "
-                            f"(outside the value positions the property lists)", line=x.lineno))
+                            f"{what} decides the truth of the row of a predicate; where the output is used as a value the false rows are asked for "
+                            f"(see the value entry)", line=x.lineno))
     if not value_filter_classes:
         out.append(inst("VALUE-TRUTH", INFO, "", "no-value-filter",
                         "no mapping class filters rows by the truthiness of the mapped value: nothing to switch off"))
-    entries = value_entry_methods(db, value_filter_classes)
+    # a class whose rows are true or false by the truthiness of an output under a condition (`bool(out) if self._predicate_type_ else True`)
+    conditional: Dict[str, ast.AST] = {}
+    for m, x, what in owners:
+        if m.cls.is_subclass_of(dm):
+            continue
+        for n in own_nodes(m.node):
+            if isinstance(n, ast.IfExp) and any(y is x for y in ast.walk(n.body)) and isinstance(n.orelse, ast.Constant) and n.orelse.value is True:
+                conditional[m.cls.qualname] = n.test
+    entries = value_entry_methods(db, value_filter_classes, conditional)
     n_value = 0
     for s in model.sites:
         role, why = site_role(db, s)
